@@ -20,7 +20,7 @@ EXPLANATION = (
     "whole documents through AttrStore::new + convert_markup with the blanks of every whitespace token symbolic. Tokens and comments are "
     "compared separately (a comment may move across a token of its own construct; the order of comments is kept). "
     "Statement boundaries, operator grouping by parentheses, indentation-derived nesting and everything that depends on the renderer's "
-    "width decisions are outside the claim.")
+    "width decisions are outside the claim. Session 3: delimiters that belong to a construct keep their place relative to the tokens; whole documents (hand-written families plus ~4000 generated ones: construct x spelling x context x comment position; quick tier: a sample of 300 that depends on VERIF_SEED) through the real printer, pretty's layout algorithm interpreted at representative widths and the REAL parser: the syntax tree of the output equals that of the source modulo layout.")
 
 
 def run(S):
